@@ -37,7 +37,7 @@ def generate(seed_: int, run: int, reactions: list[str]) -> dict:
         for _ in range(rng.randrange(0, 5)):
             ops.append(c06.gen_config_op(rng, slot, tag))
         ops.append({"op": "formulate", "b": slot})
-        fp = tag in SMALL_RX and rng.random() < 0.25
+        fp = tag in SMALL_RX and rng.random() < 0.4
         name = f"model{slot}.pkl"
         ops.append({"op": "dump", "b": slot, "file": name, "fingerprint": fp})
         files.append(("model", name, fp))
@@ -98,6 +98,9 @@ def execute(zy: ZygoteSet, run: int, workload: dict, tag: str = "") -> dict:
                     cls = ev["load_error"].split(":")[0]
                     violations.append({"sig": f"load-raised:{cls}", "detail": f"{where} ({what}): {ev['load_error']}"})
                     continue
+                if ev.get("hash_fail"):
+                    violations.append({"sig": f"hash-inconsistent:{scope}",
+                                       "detail": f"{where} ({what}): {ev['hash_fail']}"})
                 if ev["op"] == "load":
                     label = f"rx={rec['key']['rx']} align={rec['key']['alignment']}"
                     if ev.get("eq_fail"):
@@ -108,7 +111,7 @@ def execute(zy: ZygoteSet, run: int, workload: dict, tag: str = "") -> dict:
                         if diff:
                             violations.append({"sig": f"{scope}:{diff}",
                                                "detail": f"{where} ({what}; {label}): digest of '{diff}' differs from the one recorded at dump time"})
-                    if "fingerprint" in ev and "fingerprint" in rec and ev["fingerprint"] != rec["fingerprint"]:
+                    if "fingerprint" in ev and "fingerprint" in rec and not _same_number(ev["fingerprint"], rec["fingerprint"]):
                         violations.append({"sig": "numeric",
                                            "detail": f"{where} ({what}; {label}): {ev['fingerprint']} != {rec['fingerprint']}"})
                 else:
@@ -122,6 +125,16 @@ def execute(zy: ZygoteSet, run: int, workload: dict, tag: str = "") -> dict:
     finally:
         shutil.rmtree(disk, ignore_errors=True)
     return {"segments": seg_out, "violations": violations, "recorded": recorded}
+
+
+def _same_number(a: str, b: str) -> bool:
+    if a.startswith("non-numeric") or b.startswith("non-numeric"):
+        return a == b
+    from decimal import Decimal  # noqa: PLC0415
+
+    (ar, ai), (br, bi) = (tuple(Decimal(x) for x in v.split("|")) for v in (a, b))
+    scale = max(abs(ar), abs(br), abs(ai), abs(bi), Decimal("1e-8"))
+    return abs(ar - br) <= scale * Decimal("1e-12") and abs(ai - bi) <= scale * Decimal("1e-12")
 
 
 def signature_of(out: dict) -> str:
